@@ -16,6 +16,7 @@ import multiprocessing as mp
 import os
 import re
 import shutil
+import signal
 import sys
 import tempfile
 import time
@@ -34,6 +35,21 @@ class StopRun(BaseException):
     pass
 
 
+class CaseTimeout(BaseException):
+    """Raised by the per-case watchdog (SIGALRM) inside the code under test."""
+
+
+# A call into the repository that has not returned after this many seconds is reported as `<ID>.hang` (every property
+# implies that the call returns). The slowest legitimate case of any check takes a few seconds; a module can override
+# the value with CASE_TIMEOUT. This is not a performance assertion: it only keeps a non-terminating loop from blocking
+# the run for ever.
+DEFAULT_CASE_TIMEOUT = int(os.environ.get("VP_CASE_TIMEOUT", "300"))
+
+
+def _on_alarm(signum, frame):
+    raise CaseTimeout()
+
+
 # sensitivity runs only (tools/automutate.py): path of a flag file; the first shard that finds a violation creates it
 # and every shard stops at its next case. Never set by the registered commands.
 FAILFAST = os.environ.get("VP_FAILFAST_FLAG")
@@ -48,6 +64,12 @@ def _failfast_hit():
 
 
 def _quiet():
+    if os.environ.get("VP_MEMLIMIT_GB"):
+        # sensitivity runs only (tools/automutate.py): a mutant that allocates without bound gets a MemoryError (reported
+        # as a crash of the code under test) instead of taking the machine down. Never set by the registered commands.
+        import resource
+        lim = int(float(os.environ["VP_MEMLIMIT_GB"]) * 2 ** 30)
+        resource.setrlimit(resource.RLIMIT_AS, (lim, lim))
     warnings.simplefilter("ignore")
     logging.disable(logging.CRITICAL)
     import numpy as np
@@ -93,8 +115,22 @@ class State:
         if FAILFAST and os.path.exists(FAILFAST):
             raise StopRun()
         ctx = Ctx(scratch=self.scratch)
+        timeout = getattr(self.mod, "CASE_TIMEOUT", DEFAULT_CASE_TIMEOUT)
+        if timeout and getattr(self, "hang_seen", False):
+            timeout = min(timeout, 20)  # one hang has been reported already: do not wait the full time for each further one
         try:
-            self.mod.run_case(case, ctx)
+            if timeout:
+                signal.signal(signal.SIGALRM, _on_alarm)
+                signal.setitimer(signal.ITIMER_REAL, timeout)
+            try:
+                self.mod.run_case(case, ctx)
+            finally:
+                if timeout:
+                    signal.setitimer(signal.ITIMER_REAL, 0)
+        except CaseTimeout:
+            self.hang_seen = True
+            ctx.fail(f"{self.mod.ID}.hang", f"the case did not finish within {timeout} s (a call into the repository does not "
+                     "return; legitimate cases take seconds at most)")
         except (HarnessAbort, StopRun):
             raise
         except BaseException as e:  # noqa - harness bug, or SUT exception not routed through ctx.call
@@ -351,6 +387,7 @@ def main(argv=None):
 
     parts = []
     exhaustive = False
+    stuck = False
     ctxmp = mp.get_context("fork")
     with cf.ProcessPoolExecutor(max_workers=max(1, args.shards), mp_context=ctxmp) as ex:
         futs = []
@@ -368,12 +405,27 @@ def main(argv=None):
                 futs.append(ex.submit(_hyp_shard, mod_id, tier, seed, i, n, known_keys, deadline))
         for f in futs:
             try:
-                parts.append(f.result())
+                # a shard that is stuck inside native code (the per-case watchdog cannot fire there) must not block the
+                # run for ever: give up two minutes after the wall-clock cap and report a harness error
+                parts.append(f.result(timeout=max(5.0, deadline + 120 - time.time())))
+            except cf.TimeoutError:
+                stuck = True
+                parts.append({"evaluations": 0, "nontrivial": [], "n_nontrivial_enum": 0, "classes": {}, "samples": [],
+                              "known_seen": {}, "excluded_hits": {}, "failures": {}, "stats": {},
+                              "harness_error": {"traceback": "a shard process did not return within the wall-clock cap + 120 s",
+                                                "case": None},
+                              "budget_exhausted": True})
             except Exception:
                 parts.append({"evaluations": 0, "nontrivial": [], "n_nontrivial_enum": 0, "classes": {}, "samples": [],
                               "known_seen": {}, "excluded_hits": {}, "failures": {}, "stats": {},
                               "harness_error": {"traceback": traceback.format_exc(), "case": None},
                               "budget_exhausted": False})
+        if stuck:
+            for pr in list(getattr(ex, "_processes", {}).values()):
+                try:
+                    pr.kill()
+                except Exception:  # noqa
+                    pass
     m = _merge(parts)
     wall = time.time() - t0
 
